@@ -2,6 +2,7 @@ import Proofs.C14.Descsum
 import Proofs.C14.Scan
 import Proofs.C14.Roundtrip
 import Proofs.C14.Multipath
+import Proofs.C14.Derive
 /-!
 # C14 — descriptors and wallets derive what they describe and recognise only their own
 
@@ -400,5 +401,105 @@ example : expandText "pk(x/<0;1>/<0;1;2>)".toList = none ∧ expandText "pk(x/<0
   decide +kernel
 
 end T4
+
+
+/-! ## T3 — derivation: keys by BIP32 (C07's model), scripts assembled, `tr()` by C12's tweak
+
+`Model/C14/Derive.lean` is `Descriptor.script_pub_keys` over the SAME definitions C07 and C12 prove their
+theorems about (`Btc.Bip32.derive`, `Btc.Taproot.outputPubkey`), generic over the group and the hashes;
+`Model/C14/Wallet.lean` puts the wallet kinds on top.  The executable instance (secp256k1, HMAC-SHA512,
+HASH160, SHA-256) is compared with btclib's `script_pub_keys` / `address` / `position_of` on every run. -/
+section T3
+open Btc.Desc Gen.Descriptor
+variable {α : Type} (E : DEnv α)
+
+/-- `sortedmulti()`: the keys are sorted bytewise AFTER derivation, so at every index the script is the
+    same whatever order the key expressions are written in (and refusals coincide). -/
+theorem sortedmulti_order_independent (net : String) (prv : PrvKeys) (i thr : Nat) {ks ks' : List Key}
+    (h : ks.Perm ks') :
+    scripts E net prv i (.multi thr ks true) = scripts E net prv i (.multi thr ks' true) :=
+  sortedmulti_perm E net prv i thr h
+
+/-- `at_index` commutes with derivation: the descriptor `at_index(d, i)` describes at index 0 exactly
+    what `d` describes at `i` (same scripts, same refusals). -/
+theorem at_index_commutes (net : String) (prv : PrvKeys) (d d' : D) (i : Nat) (h : atIndex d i = some d') :
+    scriptPubKeys E net prv d' 0 = scriptPubKeys E net prv d i := by
+  unfold atIndex at h
+  split at h
+  · cases h
+  · split at h
+    · cases h
+    · rename_i h1 h2
+      simp only [Option.some.injEq] at h
+      subst h
+      have hb : ¬ 0 ≥ INDEX_BOUND := by decide
+      unfold scriptPubKeys
+      simp only [hb, h1, h2, if_false, ne_eq, not_true_eq_false, false_and, scripts_atIndex]
+
+/-- `tr(KEY)` / `tr(KEY,TREE)`: the output key is C12's `tweakedPubkey` of the derived internal key with the
+    merkle root of the derived tree (the empty string when there is no tree). -/
+theorem tr_output_is_taproot_tweak (net : String) (prv : PrvKeys) (i : Nat) (k : Key) (t : Tree)
+    (sec : Bytes) (tt : Taproot.Tree) (hk : Key.sec E net prv k i = some sec)
+    (ht : tapTree E net prv i t = some tt) :
+    scripts E net prv i (.tr k none) =
+      (match Taproot.tweakedPubkey E.bip.o E.tag sec [] with
+        | .ok (q, _) => some [0x51 :: push q] | .error _ => none) ∧
+    scripts E net prv i (.tr k (some t)) =
+      (match Taproot.tweakedPubkey E.bip.o E.tag sec (Taproot.root E.tag tt) with
+        | .ok (q, _) => some [0x51 :: push q] | .error _ => none) := by
+  constructor
+  · simp only [scripts, hk, Option.bind_some, p2tr, Taproot.outputPubkey, Taproot.outputPubkeyAndInternalKey,
+      Option.getD_some]
+    cases Taproot.tweakedPubkey E.bip.o E.tag sec [] with
+    | error e => rfl
+    | ok r => rfl
+  · simp only [scripts, hk, ht, p2tr, Taproot.outputPubkey, Taproot.outputPubkeyAndInternalKey, Option.getD_some]
+    cases Taproot.tweakedPubkey E.bip.o E.tag sec (Taproot.root E.tag tt) with
+    | error e => rfl
+    | ok r => rfl
+
+/-- the wallets' `position_of` is the find-first scan over their own derivation, so: a script the wallet
+    derives at `(b, i)` within the searched range is answered `(b, i)` whenever the scripts in range
+    are pairwise distinct (T5 instantiated at `BIP32KeyWallet` / `ScriptWallet` derivation). -/
+theorem wallet_position_of_own (spk : Nat → Nat → Option Bytes) (branches : List Nat) (last b i : Nat) (s : Bytes)
+    (hb : b ∈ branches) (hi : i ≤ last) (hs : spk b i = some s)
+    (hd : ∀ b₁ ∈ branches, ∀ b₂ ∈ branches, ∀ i₁ i₂, i₁ ≤ last → i₂ ≤ last → spk b₁ i₁ = spk b₂ i₂ → b₁ = b₂ ∧ i₁ = i₂) :
+    walletPositionOf spk branches s last = some (b, i) := by
+  unfold walletPositionOf
+  rw [← hs]
+  exact position_of_own_exact spk last branches b i hb hi hd
+
+/-- instances: the BIP32 key wallet and the script-template wallet. -/
+theorem bip32_wallet_position_of_own (t : KeyScriptType) (acct : Bip32.XKey) (last b i : Nat) (s : Bytes)
+    (hb : b ∈ [0, 1]) (hi : i ≤ last) (hs : bip32WalletSpk E t acct b i = some s)
+    (hd : ∀ b₁ ∈ [0, 1], ∀ b₂ ∈ [0, 1], ∀ i₁ i₂, i₁ ≤ last → i₂ ≤ last →
+      bip32WalletSpk E t acct b₁ i₁ = bip32WalletSpk E t acct b₂ i₂ → b₁ = b₂ ∧ i₁ = i₂) :
+    walletPositionOf (bip32WalletSpk E t acct) [0, 1] s last = some (b, i) :=
+  wallet_position_of_own _ _ last b i s hb hi hs hd
+
+theorem script_wallet_position_of_own (t : EmbedType) (order : KeyOrder) (tmpl : List Cmd) (last b i : Nat)
+    (s : Bytes) (hb : b ∈ [0, 1]) (hi : i ≤ last) (hs : scriptWalletSpk E t order tmpl b i = some s)
+    (hd : ∀ b₁ ∈ [0, 1], ∀ b₂ ∈ [0, 1], ∀ i₁ i₂, i₁ ≤ last → i₂ ≤ last →
+      scriptWalletSpk E t order tmpl b₁ i₁ = scriptWalletSpk E t order tmpl b₂ i₂ → b₁ = b₂ ∧ i₁ = i₂) :
+    walletPositionOf (scriptWalletSpk E t order tmpl) [0, 1] s last = some (b, i) :=
+  wallet_position_of_own _ _ last b i s hb hi hs hd
+
+/-- a descriptor wallet's answer derives the script on the answered chain. -/
+theorem descriptor_wallet_answer_derives (net : String) (prv : PrvKeys) (chains : List D) (s : Bytes) (last b i : Nat)
+    (h : descWalletPositionOf E net prv chains s last = some (b, i)) :
+    ∃ d, chains[b]? = some d ∧ ∃ l, scriptPubKeys E net prv d i = some l ∧ s ∈ l := by
+  unfold descWalletPositionOf at h
+  have := descriptor_wallet_position_derives _ _ s last _ b i h
+  obtain ⟨hb, _, hm⟩ := this
+  cases hc : chains[b]? with
+  | none => simp [hc] at hm
+  | some d =>
+    refine ⟨d, rfl, ?_⟩
+    simp only [hc] at hm
+    cases hl : scriptPubKeys E net prv d i with
+    | none => simp [hl] at hm
+    | some l => exact ⟨l, rfl, by simpa [hl] using hm⟩
+
+end T3
 
 end Props.C14
